@@ -223,4 +223,9 @@ FIXED = ["", " ", "\n", "\n\n\n", "\t", "\r\n", "\ufeff", "#!", "#!/usr/bin/env 
          "type", "type A", "type A =", "type A = {", "type A = |", "match", "match x {", "1.", "1.e", "0..", "9223372036854775808", "-9223372036854775809", "1" * 5000, "1." + "0" * 400,
          "é", "let é = 1", "let x = 'é€🙂'", "let s = \"\0\"", "\0", "use", "use a/b/", "use x.(", "x.", "x.y.", ".", "..", "x[", "x(", "f(,)", "f(a = )", "[,]", "(,)", "()",
          "task", "task {", "interface I {", "implement I for", "extend int {", "a b c", "if", "if x", "if x {} else", "while", "for x in", "return", "break", "x -> ", "(x, y) ->",
-         "let (a, b", "let A(x) = ", "x = = 1", "x +=", "not", "- - - 1", "x ? ? !", "x!?", "1 2 3", "\"a\" \"b\"", "let x = 1;;;;", ";", ",", "}", ")", "]", "{{{{", "let t: T T1 = 1"]
+         "let (a, b", "let A(x) = ", "x = = 1", "x +=", "not", "- - - 1", "x ? ? !", "x!?", "1 2 3", "\"a\" \"b\"", "let x = 1;;;;", ";", ",", "}", ")", "]", "{{{{", "let t: T T1 = 1",
+         # default values are re-checked at every call that fills them in
+         "fn df(a: int = {\n  let q = z -> y -> z + y\n  q(1)(2)\n}) -> int = a\nprintln(df())\n",
+         "fn df(a: int = {\n  let q = z -> y -> z + y + outer\n  q(1)(2)\n}) -> int = a\nvar outer = 0\nprintln(df())\nprintln(df(5))\n",
+         "fn df(a = x -> y -> z -> x + y + z, b = a) = b\nprintln(df()(1)(2)(3))\nprintln(df()(1)(2)(3))\n",
+         "type Pq = {\n  f: int -> int -> int = x -> y -> x * y\n}\nprintln(Pq().f(2)(3))\nprintln(Pq().f(2)(3))\n"]
